@@ -346,6 +346,17 @@ impl Prop for C19 {
             Part { name: "random-with-backrefs".into(), strategy: s2, cases: tier.pick(100_000, 2_000_000) },
             Part { name: "many-groups".into(), strategy: s3, cases: tier.pick(20_000, 300_000) },
             Part { name: "multi-digit".into(), strategy: s4, cases: tier.pick(30_000, 300_000) },
+            Part {
+                name: "scaled".into(),
+                strategy: super::c01::scaled_part(&{
+                    let mut c = cfg.clone();
+                    c.w_backref = 6;
+                    c
+                }, "i")
+                .prop_map(Case19::Ast)
+                .boxed(),
+                cases: tier.pick(30_000, 400_000),
+            },
         ]
     }
     fn enumerations(&self, tier: Tier) -> Vec<(String, String, Box<dyn Iterator<Item = Case19> + Send>)> {
